@@ -5,7 +5,7 @@ from core import World, parse_fs, Line
 from gen import Gen, mode_line, cfg_line, Call
 from suites import run_suite, exp_silent, exp_same_fs, mutate_text
 
-LEAN_MODULES = ['GoSnaps.Props.C19', 'GoSnaps.Props.Tie.Path', 'GoSnaps.Props.Tie.SnapshotIO', 'GoSnaps.Props.Tie.Registry', 'GoSnaps.Props.Tie.Flows', 'GoSnaps.Props.Tie.Wrappers', 'GoSnaps.Props.Tie.Pipeline']
+LEAN_MODULES = ['GoSnaps.Props.C19', 'GoSnaps.Props.Tie.Path', 'GoSnaps.Props.Tie.SnapshotIO', 'GoSnaps.Props.Tie.Registry', 'GoSnaps.Props.Tie.Flows', 'GoSnaps.Props.Tie.Wrappers', 'GoSnaps.Props.Tie.Pipeline', 'GoSnaps.Props.C11Standalone']
 
 
 def sa_suffix(cfgline, name, k, json_default):
@@ -236,7 +236,7 @@ def known(w, p):
 def run(ctx):
     g = Gen(ctx.seed * 1000003 + 19)
     n = 100 if ctx.tier == 'quick' else 2500
-    worlds = [render('c19-%d' % i, make_spec(g, (('pct',) if g.r.random() < 0.1 else ()) + (('punct',) if g.r.random() < 0.5 else ())))
+    worlds = [render('c19-%d' % i, make_spec(g, (('pct',) if g.r.random() < 0.3 else ()) + (('punct',) if g.r.random() < 0.5 else ())))
               for i in range(n)]
     worlds += fixed_worlds()
     run_suite(ctx, 'match.standalone', worlds, known=known, chunk=100)
